@@ -158,6 +158,20 @@ class FiltersSet:
         """Return the given strings as a string list."""
         return "[%s]" % ",".join(self.__quote(val) for val in values)
 
+    def __add_tag(self, cmd: commands.Command, tag: str) -> None:
+        """Give a tag to a command and require the extension it needs, if any
+
+        :param cmd: the command receiving the tag
+        :param tag: the tag
+        """
+        cmd.check_next_arg("tag", tag, check_extension=False)
+        for argdef in cmd.args_definition:
+            extension = argdef.get("extension_values", {}).get(tag.lower())
+            if extension:
+                self.require(extension)
+            if "extension" in argdef and tag.lower() in argdef.get("values", []):
+                self.require(argdef["extension"])
+
     def __build_condition(
         self, condition: List[str], parent: commands.Command, tag: Optional[str] = None
     ) -> commands.Command:
@@ -172,7 +186,7 @@ class FiltersSet:
         if tag is None:
             tag = condition[1]
         cmd = commands.get_command_instance("header", parent)
-        cmd.check_next_arg("tag", tag)
+        self.__add_tag(cmd, tag)
         if isinstance(condition[0], list):
             cmd.check_next_arg(
                 "stringlist", [self.__quote_if_necessary(c) for c in condition[0]]
@@ -242,7 +256,7 @@ class FiltersSet:
                     negate = True
                 else:
                     comp_tag = c[1]
-                cmd.check_next_arg("tag", comp_tag)
+                self.__add_tag(cmd, comp_tag)
                 cmd.check_next_arg("stringlist", self.__quote_list(c[2]))
                 cmd.check_next_arg("stringlist", self.__quote_list(c[3]))
             elif cname == "address":
@@ -252,7 +266,7 @@ class FiltersSet:
                     negate = True
                 else:
                     comp_tag = c[1]
-                cmd.check_next_arg("tag", comp_tag)
+                self.__add_tag(cmd, comp_tag)
                 for arg in c[2:]:
                     if isinstance(arg, str):
                         finalarg = self.__quote_if_necessary(arg)
@@ -263,13 +277,13 @@ class FiltersSet:
             elif cname == "body":
                 cmd = commands.get_command_instance("body", ifcontrol, False)
                 self.require(cmd.extension)
-                cmd.check_next_arg("tag", c[1])
+                self.__add_tag(cmd, c[1])
                 if c[2].startswith(":not"):
                     comp_tag = c[2].replace("not", "")
                     negate = True
                 else:
                     comp_tag = c[2]
-                cmd.check_next_arg("tag", comp_tag)
+                self.__add_tag(cmd, comp_tag)
                 cmd.check_next_arg("stringlist", self.__quote_list(c[3:]))
             elif cname == "currentdate":
                 cmd = commands.get_command_instance("currentdate", ifcontrol, False)
@@ -281,7 +295,7 @@ class FiltersSet:
                     negate = True
                 else:
                     comp_tag = c[3]
-                cmd.check_next_arg("tag", comp_tag, check_extension=False)
+                self.__add_tag(cmd, comp_tag)
                 next_arg_pos = 4
                 if comp_tag == ":value":
                     self.require("relational")
